@@ -64,55 +64,73 @@ fn merge_idempotent() {
     assert!(eq(&aa, &a));
 }
 
-// reference: rho = 1 + number of leading zero bits of the bit string input[offset+1..32]
-fn ref_rho(input: &[u8; 32], offset: usize) -> u32 {
-    let mut zeros: u32 = 0;
-    let mut i = offset + 1;
-    while i < 32 {
-        let mut bit = 0;
-        let mut hit = false;
-        while bit < 8 {
-            if input[i] & (0x80u8 >> bit) != 0 { hit = true; break; }
-            zeros += 1;
-            bit += 1;
-        }
-        if hit { break; }
-        i += 1;
-    }
-    zeros + 1
+// bit j (0 = most significant bit of input[offset+1]) of the bit string that follows the bucket byte
+fn bit_after(input: &[u8; 32], offset: usize, j: usize) -> bool {
+    let byte = input[offset + 1 + j / 8];
+    (byte >> (7 - (j % 8))) & 1 == 1
+}
+
+// rho = 1 + number of leading zero bits of input[offset+1..32], stated without a loop: with z = rho - 1,
+// every bit before position z is 0 and, unless the string is exhausted, bit z is 1.  The bit position checked is
+// symbolic, i.e. universally quantified.
+#[kani::proof]
+#[kani::unwind(34)]
+fn add_element_rho_semantics() {
+    let input: [u8; 32] = kani::any();
+    let offset: usize = kani::any();
+    kani::assume(offset < 24);
+    let mut s = Hll8::new();
+    s.add_element(&input, offset).unwrap();
+    let idx = input[offset] as usize;
+    let rho = s.0[idx] as usize;
+    let nbits = (31 - offset) * 8;
+    assert!(rho >= 1 && rho <= nbits + 1);
+    let z = rho - 1;
+    let j: usize = kani::any();
+    kani::assume(j < nbits);
+    if j < z { assert!(!bit_after(&input, offset, j)); }
+    if j == z { assert!(bit_after(&input, offset, j)); }
+    // every other register of the empty sketch stays empty
+    let i: usize = kani::any();
+    kani::assume(i < 256 && i != idx);
+    assert!(s.0[i] == 0);
+    kani::cover!(z > 8);
+}
+
+// adding x to any sketch a = register-wise max of a and the sketch of {x} alone
+#[kani::proof]
+#[kani::unwind(34)]
+fn add_element_is_max_with_singleton() {
+    let a = any_hll();
+    let input: [u8; 32] = kani::any();
+    let offset: usize = kani::any();
+    kani::assume(offset < 24);
+    let mut s = a;
+    s.add_element(&input, offset).unwrap();
+    let mut z = Hll8::new();
+    z.add_element(&input, offset).unwrap();
+    let i: usize = kani::any();
+    kani::assume(i < 256);
+    let expect = if a.0[i] > z.0[i] { a.0[i] } else { z.0[i] };
+    assert!(s.0[i] == expect);
 }
 
 #[kani::proof]
-#[kani::unwind(258)]
-fn add_element_contract() {
+#[kani::unwind(34)]
+fn add_element_err_iff_offset_out_of_range() {
     let a = any_hll();
     let input: [u8; 32] = kani::any();
     let offset: usize = kani::any();
     let mut s = a;
     let r = s.add_element(&input, offset);
-    if offset >= 24 {
-        assert!(r.is_err());
-        assert!(eq(&s, &a));
-    } else {
-        assert!(r.is_ok());
-        let idx = input[offset] as usize;
-        let rho = ref_rho(&input, offset);
-        assert!(rho <= 255);
-        let i: usize = kani::any();
-        kani::assume(i < 256);
-        if i == idx {
-            let expect = if (rho as u8) > a.0[i] { rho as u8 } else { a.0[i] };
-            assert!(s.0[i] == expect);
-        } else {
-            assert!(s.0[i] == a.0[i]);
-        }
-    }
+    assert!(r.is_err() == (offset >= 24));
+    if r.is_err() { assert!(eq(&s, &a)); }
     kani::cover!(offset < 24);
     kani::cover!(offset >= 24);
 }
 
 #[kani::proof]
-#[kani::unwind(258)]
+#[kani::unwind(34)]
 fn add_element_idempotent_and_order_independent() {
     let a = any_hll();
     let x: [u8; 32] = kani::any();
